@@ -21,5 +21,6 @@ CONSTANTS
   RLen = 3
   VecTypes = {"c", "b", "y", "i", "u", "x", "f", "d", "e", "l"}
   VecLen = 2
+  SinkTypes = {"b", "y", "n", "q", "x", "t", "f", "d"} SinkCaps = {1, 2, 3} SinkLefts = {0, 2, 3, 5, 6, 9, 30}
 INVARIANTS XTypeOK XDesignSound XDesignUseful XDigitsSound XPrintedSound
 CHECK_DEADLOCK FALSE
